@@ -1,6 +1,6 @@
 (* C15, written from the property text only (no reference to the loop).               *)
 From Coq Require Import List ZArith Bool.
-From PV Require Import Base.Exn Model.RetrySem.
+From PV Require Import Base.Exn Model.RetrySem Model.RetryGroups.
 Import ListNotations.
 Open Scope Z_scope.
 
@@ -37,6 +37,36 @@ Fixpoint find_stop (listed : exn -> bool) (outs : nat -> oc) (n : nat) (from : n
 Definition spec_calls_exec (attempts : Z) (listed : exn -> bool) (outs : nat -> oc) : nat :=
   let m := Z.to_nat (Z.max attempts 1) in
   match find_stop listed outs m 0%nat with
+  | Some k => S k
+  | None => m
+  end.
+
+(* ---- exception groups ------------------------------------------------------------------
+   "raises an exception outside the configured `exceptions`": whether a raised OBJECT is outside
+   is isinstance(obj, exceptions) - a statement about the class of that object.  An exception group
+   is an exception object like any other: it is listed iff its own class is, whatever it carries
+   (a group of listed leaves whose own class is not listed is a foreign exception and ends the
+   retrying; a group whose own class is listed - e.g. any ExceptionGroup under the default
+   `exceptions=Exception` - is retried, whatever its leaves).                                   *)
+Definition stops_x (listed : exn -> bool) (o : xoc) : bool :=
+  match o with XRet => true | XRaise x => negb (listed (xcls x)) end.
+
+Definition first_stop_x (listed : exn -> bool) (outs : nat -> xoc) (k : nat) : Prop :=
+  stops_x listed (outs k) = true /\ forall j, (j < k)%nat -> stops_x listed (outs j) = false.
+
+Definition never_stops_x (listed : exn -> bool) (outs : nat -> xoc) : Prop :=
+  forall j, stops_x listed (outs j) = false.
+
+(* executable form over object streams, written without reference to the class projection *)
+Fixpoint find_stop_x (listed : exn -> bool) (outs : nat -> xoc) (n : nat) (from : nat) : option nat :=
+  match n with
+  | O => None
+  | S n' => if stops_x listed (outs from) then Some from else find_stop_x listed outs n' (S from)
+  end.
+
+Definition spec_calls_exec_x (attempts : Z) (listed : exn -> bool) (outs : nat -> xoc) : nat :=
+  let m := Z.to_nat (Z.max attempts 1) in
+  match find_stop_x listed outs m 0%nat with
   | Some k => S k
   | None => m
   end.
